@@ -36,8 +36,10 @@ pub fn vx_vec_write_be16(v: &mut Vec<u8>, index: usize, value: u16)
         forall|i: int| 0 <= i < old(v)@.len() && !(index <= i < index + 2) ==> final(v)@[i] == old(v)@[i],
         be16(final(v)@[index as int], final(v)@[index as int + 1]) == value,
 { v[index..index + 2].copy_from_slice(&value.to_be_bytes()) }
+pub open spec fn be32(a: u8, b: u8, c: u8, d: u8) -> u32 { ((a as u32) * 16777216 + (b as u32) * 65536 + (c as u32) * 256 + (d as u32)) as u32 }
 #[verifier::external_body]
 pub fn vx_u32_to_be_bytes(v: u32) -> (r: [u8; 4])
+    ensures be32(r[0], r[1], r[2], r[3]) == v,
 { v.to_be_bytes() }
 #[verifier::external_body]
 pub fn vx_ipv4_octets(a: &std::net::Ipv4Addr) -> (r: [u8; 4]) { a.octets() }
